@@ -136,6 +136,94 @@ theorem replicate_read (n b : Nat) (hb : b < 256) (hn : n < 18446744073709551616
     unfold readCapped
     exact readMsg_prefix_none request _ hw requestCap (by omega)
 
+/-! ## mixed lists: `c` chunks (52 bytes each) and `n` non-chunk records -/
+
+theorem toCs_append (a b : List CTree) : toCs (a ++ b) = toCs a ++ toCs b := by
+  induction a with
+  | nil => rfl
+  | cons x xs ih => simp only [List.cons_append, toCs, ih]
+
+theorem encodeList_append_length (a b : List Val) :
+    (encodeList (a ++ b)).length = (encodeList a).length + (encodeList b).length := by
+  induction a with
+  | nil => simp [encodeList]
+  | cons x xs ih => simp only [List.cons_append, encodeList, List.length_append, ih]; omega
+
+theorem nm_Chunk_length : (nm "Chunk").length = 5 := by decide
+
+theorem chunkEntry_size (b : Nat) : (encode (toC (chunkEntry b))).length = chunkEntrySize := by
+  simp only [chunkEntry, toC, toCs, encode, encodeList, encodePairs, encodeHead, List.length_append, List.length_cons,
+    List.length_nil, List.length_replicate, encodeArg_length, argLen, nm_RecordKey_length, nm_Chunk_length, chunkEntrySize]
+  simp
+
+theorem mixed_size_closed_form (c n b : Nat) (hb : b < 256) :
+    (writeMsg (mixedReplicate c n b)).length = mixedRequestSize c n b := by
+  have he := fillEntry_size b hb
+  have hc := chunkEntry_size b
+  have hl1 : (encodeList (List.replicate c (toC (chunkEntry b)))).length = c * (encode (toC (chunkEntry b))).length :=
+    encodeList_replicate_length c _
+  have hl2 : (encodeList (List.replicate n (toC (fillEntry b)))).length = n * (encode (toC (fillEntry b))).length :=
+    encodeList_replicate_length n _
+  obtain ⟨h1, h2, h3, h4, h5⟩ := nm_lengths
+  simp only [writeMsg, mixedReplicate, toC, toCFields, toCs_append, toCs_replicate, encode, encodePairs, encodeHead,
+    List.length_append, List.length_cons, List.length_nil, List.length_replicate, encodeArg_length, argLen, h1, h2, h3, h4, h5,
+    encodeList_append_length, hl1, hl2, he, hc, mixedRequestSize]
+  simp
+  omega
+
+theorem chunkEntry_conforms (b : Nat) : conformsC (.tup [networkAddress, recordType]) (chunkEntry b) = true := rfl
+
+theorem chunkEntry_wf (b : Nat) (hb : b < 256) : treeWfC (chunkEntry b) = true := by
+  have hk : nameOkC (nm "RecordKey") = true ∧ nameOkC (nm "Chunk") = true := by decide
+  simp only [chunkEntry, treeWfC, treeWfCList, hk.1, hk.2, nameOk_replicate 32 b hb (by omega), Bool.and_self]
+  rfl
+
+theorem wfList_append (a b : List CTree) (ha : treeWfCList a = true) (hb : treeWfCList b = true) :
+    treeWfCList (a ++ b) = true := by
+  induction a with
+  | nil => exact hb
+  | cons x xs ih =>
+    simp only [List.cons_append, treeWfCList, Bool.and_eq_true] at ha ⊢
+    exact ⟨ha.1, ih ha.2⟩
+
+theorem mixedReplicate_conforms (c n b : Nat) (hb : b < 256) : conformsC request (mixedReplicate c n b) = true := by
+  have he := all_replicate n (fillEntry b) (conformsC (.tup [networkAddress, recordType])) (entry_conforms b hb)
+  have hc := all_replicate c (chunkEntry b) (conformsC (.tup [networkAddress, recordType])) (chunkEntry_conforms b)
+  have h : conformsC request (mixedReplicate c n b) =
+      ((List.replicate c (chunkEntry b) ++ List.replicate n (fillEntry b)).all (conformsC (.tup [networkAddress, recordType])) && true) := rfl
+  rw [h, List.all_append, he, hc]; rfl
+
+theorem mixedReplicate_wf (c n b : Nat) (hb : b < 256) (hn : c + n < 18446744073709551616) :
+    treeWfC (mixedReplicate c n b) = true := by
+  have he := wfList_append _ _ (wfList_replicate c (chunkEntry b) (chunkEntry_wf b hb)) (wfList_replicate n (fillEntry b) (entry_wf b hb))
+  have hk : nameOkC (nm "Cmd") = true ∧ nameOkC (nm "Replicate") = true ∧ nameOkC (nm "holder") = true ∧
+      nameOkC (nm "keys") = true ∧ nameOkC (nm "PeerId") = true := by decide
+  obtain ⟨h1, h2, h3, h4, h5⟩ := hk
+  have hp : nameOkC (List.replicate 38 b) = true := by
+    simp [nameOkC, isBytes, List.replicate, hb]
+  simp only [mixedReplicate, treeWfC, treeWfCFields, h1, h2, h3, h4, h5, he, hp, List.length_replicate, List.length_append,
+    List.length_cons, List.length_nil, Bool.and_self, Bool.true_and, Bool.and_true]
+  simp [hn]
+
+theorem mixed_read (c n b : Nat) (hb : b < 256) (hn : c + n < 18446744073709551616) :
+    (mixedRequestSize c n b ≤ requestCap →
+      readCapped requestCap request (writeMsg (mixedReplicate c n b)) = some (mixedReplicate c n b, [])) ∧
+    (requestCap < mixedRequestSize c n b → readCapped requestCap request (writeMsg (mixedReplicate c n b)) = none) := by
+  have hs := mixed_size_closed_form c n b hb
+  have hw := mixedReplicate_wf c n b hb hn
+  constructor
+  · intro h
+    unfold readCapped
+    rw [List.take_of_length_le (by omega)]
+    have := readMsg_writeMsg request (mixedReplicate c n b) [] (by decide +kernel) (mixedReplicate_conforms c n b hb) hw
+    simpa using this
+  · intro h
+    unfold readCapped
+    exact readMsg_prefix_none request _ hw requestCap (by omega)
+
+theorem mixed_zero_chunks (n b : Nat) : mixedReplicate 0 n b = fillReplicate n b := by
+  simp [mixedReplicate, fillReplicate]
+
 /-! ## the response with a large payload -/
 
 theorem fillResponse_bytes (n b : Nat) :
